@@ -25,6 +25,7 @@ import (
 	"github.com/basecomplextech/spec/rpc"
 
 	"verifharness/internal/mpxh"
+	"verifharness/internal/poolrec"
 )
 
 type Event struct {
@@ -71,6 +72,7 @@ const (
 	sSrvStream        // server streams n messages, then OK
 	sBidi             // handler echoes the client's messages until end, then OK
 	sOneway           // oneway: handler returns SkipResponse
+	sSlow             // unary with a client deadline shorter than the handler: the client's wait fails (dirties the pooled call state)
 	nScripts
 )
 
@@ -112,6 +114,7 @@ type env struct {
 	rec   *recorder
 	found func(sig, detail string)
 	hruns atomic.Int32
+	hdone atomic.Int32 // handler runs that logged their return
 }
 
 func (e *env) handle(ctx rpc.Context, ch rpc.ServerChannel) (ref.R[[]byte], status.Status) {
@@ -129,6 +132,7 @@ func (e *env) handle(ctx rpc.Context, ch rpc.ServerChannel) (ref.R[[]byte], stat
 	e.rec.log(Event{E: "hs", I: id})
 	ret := func(st status.Status, res int64, hasRes bool) (ref.R[[]byte], status.Status) {
 		e.rec.log(Event{E: "hr", I: id, Code: string(st.Code), Msg: st.Message, Res: int(res)})
+		e.hdone.Add(1)
 		if hasRes {
 			return ref.NewNoop(encodeInt(res)), st
 		}
@@ -137,12 +141,16 @@ func (e *env) handle(ctx rpc.Context, ch rpc.ServerChannel) (ref.R[[]byte], stat
 	switch script {
 	case sEcho:
 		return ret(status.OK, resultOf(run, id), true)
+	case sSlow:
+		time.Sleep(60 * time.Millisecond)
+		return ret(status.OK, resultOf(run, id), true)
 	case sAppCode:
 		return ret(status.New(status.Code(fmt.Sprintf("app_code_%d", id%3)), fmt.Sprintf("message of call %d", id)), 0, false)
 	case sStdErr:
 		return ret(status.NotFoundf("call %d not found", id), 0, false)
 	case sPanic:
 		e.rec.log(Event{E: "hr", I: id, Panic: true})
+		e.hdone.Add(1)
 		panic(fmt.Sprintf("handler panic of call %d", id))
 	case sEarly:
 		return ret(status.OK, resultOf(run, id), true)
@@ -236,6 +244,18 @@ func (e *env) call(cl rpc.Client, id, script, n int) {
 		e.rec.log(Event{E: "cb", I: id, Kind: "oneway"})
 		st := cl.RequestOneway(ctx, req)
 		end(st, 0)
+	case sSlow:
+		// the caller's own deadline expires while it waits for the response
+		e.rec.log(Event{E: "cb", I: id, Kind: "deadline"})
+		res, st := cl.Request(async.TimeoutContext(15*time.Millisecond), req)
+		var v int64
+		if st.OK() && res != nil {
+			v = res.Unwrap().Int64()
+		}
+		e.rec.log(Event{E: "ce", I: id, Code: string(st.Code), Msg: st.Message, Res: int(v)})
+		if res != nil {
+			res.Release()
+		}
 	case sEcho, sAppCode, sPanic, sStdErr:
 		e.rec.log(Event{E: "cb", I: id, Kind: "unary"})
 		res, st := cl.Request(ctx, req)
@@ -368,7 +388,7 @@ func runOnce(run int, rng *rand.Rand, rec *recorder, calls int, found func(sig, 
 	}
 	// oneway calls return before their handler ran: wait until every issued call reached the handler
 	deadline := time.Now().Add(3 * time.Second)
-	for int(e.hruns.Load()) < calls && time.Now().Before(deadline) {
+	for (int(e.hruns.Load()) < calls || e.hdone.Load() < e.hruns.Load()) && time.Now().Before(deadline) {
 		time.Sleep(time.Millisecond)
 	}
 	time.Sleep(2 * time.Millisecond)
@@ -403,7 +423,17 @@ func main() {
 	runs := flag.Int("runs", 20, "runs")
 	calls := flag.Int("calls", 24, "calls per run")
 	seed := flag.Int64("seed", 1, "seed")
+	pooltrace := flag.String("pooltrace", "", "C18: record the pool events of the run into this file")
 	flag.Parse()
+	if *pooltrace != "" {
+		poolrec.Start(60000)
+		defer func() {
+			if _, _, err := poolrec.Dump(*pooltrace); err != nil {
+				fmt.Fprintln(os.Stderr, "harness error:", err)
+				os.Exit(2)
+			}
+		}()
+	}
 	f, err := os.Create(*out)
 	if err != nil {
 		fmt.Fprintln(os.Stderr, "harness error:", err)
